@@ -19,6 +19,12 @@ static char dummy[4];
 static void* narrow_malloc(vsize_t n) { m_called = 1; m_req = n; return dummy; }
 static void* narrow_realloc(void* p, vsize_t n) { (void)p; r_called = 1; r_req = n; return dummy; }
 
+/* the generated configuration (macros only: growth factor, nesting limit, version) */
+#if defined(__has_include)
+#if __has_include("cbor/configuration.h")
+#include "cbor/configuration.h"
+#endif
+#endif
 /* keep the library's headers out, supply what memory_utils.c needs from them */
 #define LIBCBOR_MEMORY_UTILS_H
 #define LIBCBOR_COMMON_H
